@@ -213,6 +213,20 @@ def paramsJ (P : RelaxedParams Float) : Json :=
   objJ [("batch_shape", listJ natJ P.batchShape), ("event_shape", listJ natJ P.eventShape),
         ("probs", listJ floatJ P.probs), ("logits", listJ floatJ P.logits)]
 
+/-- an item of a history of a relaxed distribution object: `"probs"` / `"logits"` (a read of that
+attribute) or a list of naturals (`expand` by these new leading axes) -/
+def jsonToObjOp (j : Json) : Except String ObjOp :=
+  match j with
+  | Json.str "probs" => pure .probs
+  | Json.str "logits" => pure .logits
+  | _ => ObjOp.expand <$> jsonToList jsonToNat j
+
+/-- `hist` (optional): the operations run on the object before it is observed -/
+def getHistory (c : Json) : Except String (Option (List ObjOp)) :=
+  match fieldOpt c "hist" with
+  | none => pure none
+  | some j => some <$> jsonToList jsonToObjOp j
+
 /-- formulas of LogisticBernoulli for one variable and both `b`.  `p`, `u`, `v` are RAW
 (`self.probs` and the uniform draws before `clamp_probs`): the clamps are part of the model
 (`lbRsampleC`, `lbCsampleC`); `eps` = `finfo(dtype).eps`. -/
@@ -247,7 +261,12 @@ def hBernNd : Handler := fun c => do
   let ps ← getFXL c "probs"
   let us ← getFL c "us"
   let vs ← getFL c "vs"
-  let P := (lbParams TF eps ctor shape data).expand (← getNatList c "expand")
+  -- with a history: the OBJECT model (which attributes are in `__dict__`, `expand` as the code does
+  -- it), read at the end; without: the value model
+  let pre ← getNatList c "expand"
+  let P := match (← getHistory c) with
+    | none => (lbParams TF eps ctor shape data).expand pre
+    | some h => ((lbObj ctor shape data).run (lbConv TF eps) h).params (lbConv TF eps)
   let Pi : RelaxedParams Float := ⟨P.batchShape, P.eventShape, ps, ls⟩
   let B := prodL P.batchShape
   let elems := (us.zip vs).zipIdx.map fun uvn =>
@@ -291,7 +310,11 @@ def hGumbelNd : Handler := fun c => do
   let us ← getFXLL c "us"
   let vs ← getFXLL c "vs"
   let ks ← getNatList c "ks"
-  let P := (gParams TF eps ctor shape data).expand (← getNatList c "expand")
+  let pre ← getNatList c "expand"
+  let P := match (← getHistory c) with
+    | none => (gParams TF eps ctor shape data).expand pre
+    | some h => ((gObj TF ctor shape data).run (gConv TF eps (shape.getLastD 1)) h).params
+        (gConv TF eps (shape.getLastD 1))
   let Pi : RelaxedParams Float := ⟨P.batchShape, P.eventShape, ps, ls⟩
   let V := P.eventShape.headD 1
   let B := prodL P.batchShape
@@ -313,6 +336,21 @@ def hSrsworProb : Handler := fun c => do
   pure (objJ [("prob", ratJ (srsworProb o t g)), ("n_support", natJ n),
     ("binom", natJ (binomialCoefficient t t g)),
     ("support_times_prob", ratJ ((n : Rat) * srsworProb o t g))])
+
+def jsonToSrsworOp (j : Json) : Except String SrsworOp :=
+  match j with
+  | Json.str "partition" => pure .partition
+  | _ => SrsworOp.expand <$> jsonToList jsonToNat j
+
+/-- `c19.srswor_obj`: the SRSWOR distribution OBJECT after a history. {shape, out_size, total, given
+(flat, broadcast to `shape`), hist: ["partition" | [leading axes..] ..]} -> batch shape, counts and
+`exp(log_prob)` per batch element of the object at the end -/
+def hSrsworObj : Handler := fun c => do
+  let o := (srsworObj (← getNatList c "shape") (← getNat c "out_size") (← getNatList c "total")
+    (← getNatList c "given")).run (← getList jsonToSrsworOp c "hist")
+  pure (objJ [("batch_shape", listJ natJ o.batchShape), ("total", listJ natJ o.total),
+    ("given", listJ natJ o.given), ("probs", listJ ratJ o.probs),
+    ("cached", boolJ o.partition?.isSome)])
 
 /-- `c19.imh_support`: a density that vanishes on part of the proposal's support.
 {ratios:[rat|null ..] (null = -inf), f:[..], burn_in, init: idx (inside the support), draws:[idx..],
@@ -345,7 +383,7 @@ def handlers : List (String × Handler) := [
   ("c19.enum_vocab", hEnumVocab), ("c19.enum_card", hEnumCard),
   ("c19.enum_card_tensor", hEnumCardTensor), ("c19.bern", hBern), ("c19.gumbel", hGumbel),
   ("c19.bern_nd", hBernNd), ("c19.gumbel_nd", hGumbelNd),
-  ("c19.srswor_prob", hSrsworProb)]
+  ("c19.srswor_prob", hSrsworProb), ("c19.srswor_obj", hSrsworObj)]
 
 /-- `c19.multi`: {reqs: [{op, case}, ..]} -> {replies: [..]} — the elements of a proposal with a
 batch shape are independent one-variable problems: one model run per element. -/
